@@ -50,8 +50,23 @@ pub fn enforce_constraints<E: FieldElement>(
     result: &mut [E],
     memory_flag: E,
 ) {
+    enforce_constraints_with_row_flag(frame, result, memory_flag, memory_flag)
+}
+
+/// Enforces constraints for the memory chiplet.
+///
+/// - `memory_flag` is set for every memory row which is followed by another memory row; it is used
+///   for the constraints which involve the next row.
+/// - `memory_row_flag` is set for every memory row, including the last one; it is used for the
+///   constraints which involve only the current row.
+pub fn enforce_constraints_with_row_flag<E: FieldElement>(
+    frame: &EvaluationFrame<E>,
+    result: &mut [E],
+    memory_flag: E,
+    memory_row_flag: E,
+) {
     // Constrain the operation selectors.
-    let mut index = enforce_selectors(frame, result, memory_flag);
+    let mut index = enforce_selectors(frame, result, memory_flag, memory_row_flag);
 
     // Constrain the values in the d inverse column.
     index += enforce_d_inv(frame, &mut result[index..], memory_flag);
@@ -60,7 +75,7 @@ pub fn enforce_constraints<E: FieldElement>(
     index += enforce_delta(frame, &mut result[index..], memory_flag);
 
     // Constrain the memory values.
-    enforce_values(frame, &mut result[index..], memory_flag);
+    enforce_values(frame, &mut result[index..], memory_flag, memory_row_flag);
 }
 
 // TRANSITION CONSTRAINT HELPERS
@@ -70,13 +85,14 @@ fn enforce_selectors<E: FieldElement>(
     frame: &EvaluationFrame<E>,
     result: &mut [E],
     memory_flag: E,
+    memory_row_flag: E,
 ) -> usize {
     let mut index = 0;
 
     // s0 and s1 are binary.
-    result[index] = memory_flag * is_binary(frame.selector(0));
+    result[index] = memory_row_flag * is_binary(frame.selector(0));
     index += 1;
-    result[index] = memory_flag * is_binary(frame.selector(1));
+    result[index] = memory_row_flag * is_binary(frame.selector(1));
     index += 1;
 
     // s1 is set to 1 when existing memory is being read. this happens when ctx and addr haven't
@@ -145,12 +161,13 @@ fn enforce_values<E: FieldElement>(
     frame: &EvaluationFrame<E>,
     result: &mut [E],
     memory_flag: E,
+    memory_row_flag: E,
 ) -> usize {
     let mut index = 0;
 
     // initialize memory to zero when reading from new context and address pair.
     for i in 0..NUM_ELEMENTS {
-        result[index] = memory_flag * frame.init_read_flag() * frame.v(i);
+        result[index] = memory_row_flag * frame.init_read_flag() * frame.v(i);
         index += 1;
     }
 
